@@ -120,19 +120,25 @@ static struct lru_snap S[LRU_M];      /* their pre-state                        
 static int g_n;                       /* number of handles in the table in the pre-state    */
 static int g_val[LRU_M + 2];          /* distinct value cookies                             */
 
+#if defined(LRU_TYPED) && LRU_K > 1
+#error LRU_TYPED needs LRU_K <= 1
+#endif
 static lru_handle_t *mk_handle(size_t kmax) {
   size_t kl = nondet_size(), j;
-  lru_handle_t *h;
+  lru_handle_t *h; uint8_t *kp;
   __CPROVER_assume(kl <= kmax);
 #ifdef LRU_EXACT
   h = malloc(sizeof(lru_handle_t) - 1 + kl);      /* exactly what lru_shard_insert allocates: reads past the key are flagged */
+#elif defined(LRU_TYPED)
+  h = malloc(sizeof(lru_handle_t));               /* struct-typed object (far cheaper than a byte array; shard level): needs LRU_K <= 1 */
 #else
-  h = malloc(sizeof(lru_handle_t) - 1 + LRU_K);   /* constant size (cheaper); key_length <= LRU_K is symbolic */
+  h = malloc(sizeof(lru_handle_t) - 1 + LRU_K);   /* constant size byte object; key_length <= LRU_K is symbolic */
 #endif
   __CPROVER_assume(h != NULL);
   h->key_length = kl; h->hash = nondet_u32(); h->charge = nondet_size();
   h->next_hash = NULL; h->next = NULL; h->prev = NULL; h->in_cache = 0; h->refs = 0; h->value = NULL; h->deleter = model_deleter;
-  for (j = 0; j < kmax; j++) if (j < kl) h->key_data[j] = nondet_u8();
+  kp = h->key_data;                               /* through a pointer: key_data is declared [1] */
+  for (j = 0; j < kmax; j++) if (j < kl) kp[j] = nondet_u8();
   return h;
 }
 
@@ -140,7 +146,8 @@ static void snap(int i) {
   size_t j;
   lru_handle_t *h = G[i];
   S[i].refs = h->refs; S[i].hash = h->hash; S[i].in_cache = h->in_cache; S[i].charge = h->charge; S[i].klen = h->key_length; S[i].value = h->value;
-  for (j = 0; j < LRU_K + 1; j++) S[i].key[j] = j < h->key_length ? h->key_data[j] : 0;
+  const uint8_t *kp = h->key_data;
+  for (j = 0; j < LRU_K + 1; j++) S[i].key[j] = j < h->key_length ? kp[j] : 0;
 }
 
 static void mk_table(lru_table_t *t, uint32_t len) {
@@ -185,7 +192,7 @@ static void tbl_scan(const lru_table_t *t) {
     for (s = 0; s < LRU_M; s++) if (q != NULL && !T.bad) {
       i = idx_of(q);
       if (i < 0 || was_freed(q)) T.bad = 1;
-      else { T.cnt[i]++; T.bkt[i] = b; T.pos[i] = s; T.total++; q = q->next_hash; }
+      else { T.cnt[i]++; T.bkt[i] = b; T.pos[i] = s; T.total++; q = G[i]->next_hash; }   /* via G[]: q's value set may include the shard's list heads */
     }
     if (q != NULL) T.bad = 1;
   }
@@ -425,16 +432,33 @@ static struct lst_scan { int cnt[2][LRU_M]; int pos[2][LRU_M]; int len[2]; int b
 #pragma CPROVER check disable "pointer-primitive"
 #pragma CPROVER check disable "pointer-overflow"
 #pragma CPROVER check disable "bounds"
+/* next/prev of a list node WITHOUT dereferencing a pointer that may point into g_shard at a symbolic offset
+ * (CBMC turns such an access into a byte-level operation on the whole shard struct): the two list heads are read
+ * as members, handles through the harness's own table G[] */
+static const lru_handle_t *nxt(const lru_handle_t *p) {
+  int i;
+  if (p == &SH->list) return SH->list.next;
+  if (p == &SH->in_use) return SH->in_use.next;
+  i = idx_of(p);
+  return i >= 0 ? G[i]->next : NULL;
+}
+static const lru_handle_t *prv(const lru_handle_t *p) {
+  int i;
+  if (p == &SH->list) return SH->list.prev;
+  if (p == &SH->in_use) return SH->in_use.prev;
+  i = idx_of(p);
+  return i >= 0 ? G[i]->prev : NULL;
+}
 static void lst_scan(const lru_handle_t *head, int w) {
   const lru_handle_t *p = head, *q; int s, i, closed = 0;
   for (i = 0; i < LRU_M; i++) { L.cnt[w][i] = 0; L.pos[w][i] = -1; }
   L.len[w] = 0; L.bad[w] = 0;
   for (s = 0; s < LRU_M + 1; s++) if (!closed && !L.bad[w]) {
-    q = p->next;
-    if (q == head) { if (q->prev != p) L.bad[w] = 1; closed = 1; }
+    q = nxt(p);
+    if (q == head) { if (prv(q) != p) L.bad[w] = 1; closed = 1; }
     else {
       i = idx_of(q);
-      if (i < 0 || was_freed(q) || q->prev != p) L.bad[w] = 1;
+      if (i < 0 || was_freed(q) || G[i]->prev != p) L.bad[w] = 1;
       else { L.cnt[w][i]++; L.pos[w][i] = s; L.len[w]++; p = q; }
     }
   }
@@ -493,10 +517,6 @@ static int mutex_ok(void) {
   return X.locks == 1 && X.unlocks == 1 && X.last == &SH->mutex && X.held == NULL && !X.lock_err && !X.guard_err;
 }
 
-static void lru_shard_append_model(lru_handle_t *head, lru_handle_t *e) {   /* builder's own list insertion (newest = head->prev) */
-  lru_handle_t *last = head->prev;
-  last->next = e; e->prev = last; e->next = head; head->prev = e;
-}
 static const uint8_t PERM3[6][3] = {{0,1,2},{0,2,1},{1,0,2},{1,2,0},{2,0,1},{2,1,0}};
 
 /* pre-state: in_n cached handles (table + lists + usage consistent), optionally one detached handle */
@@ -513,14 +533,29 @@ static void build_shard(int n, int detached) {
     __CPROVER_assume(G[i]->charge < ((size_t)1 << 60));
     SH->usage += G[i]->charge;
   }
-  /* list order: an arbitrary permutation of the handles (LRU order is independent of hash chain order) */
-  for (j = 0; j < 3; j++) {
+  /* list order: an arbitrary permutation of the handles (LRU order is independent of hash chain order).
+   * The lists are linked with member writes on the heads (no symbolic pointer into g_shard). */
+  {
+    lru_handle_t *last[2] = {NULL, NULL};
+    for (j = 0; j < 3; j++) {
 #if LRU_N == 3 && !defined(LRU_NOPERM)
-    i = PERM3[p][j];
+      i = PERM3[p][j];
 #else
-    i = j;
+      i = j;
 #endif
-    if (i < n && i < LRU_N) lru_shard_append_model(G[i]->refs == 1 ? &SH->list : &SH->in_use, G[i]);
+      if (i < n && i < LRU_N) {
+        lru_handle_t *e = G[i];
+        if (e->refs == 1) {
+          if (last[0] == NULL) { SH->list.next = e; e->prev = &SH->list; } else { last[0]->next = e; e->prev = last[0]; }
+          last[0] = e;
+        } else {
+          if (last[1] == NULL) { SH->in_use.next = e; e->prev = &SH->in_use; } else { last[1]->next = e; e->prev = last[1]; }
+          last[1] = e;
+        }
+      }
+    }
+    if (last[0] != NULL) { last[0]->next = &SH->list; SH->list.prev = last[0]; }
+    if (last[1] != NULL) { last[1]->next = &SH->in_use; SH->in_use.prev = last[1]; }
   }
   lst_scan(&SH->list, 0);
   for (i = 0; i < LRU_N; i++) if (i < n) { snap(i); S[i].lru_pos = L.pos[0][i]; }
